@@ -385,6 +385,19 @@ func init() {
 					}
 					st2[all[len(all)/2]+"/_extra"] = 'd'
 					c08Case(c, c08Replay{Kind: "c08", Depth: t.d, Names: t.n, State: st2, Strict: strict, Form: "abs", Route: "md"})
+					if len(f) >= 3 {
+						// an early root differs in content (its child is missing) and the LAST root is absent altogether:
+						// the report must be about the early one
+						st3 := map[string]byte{}
+						lastRoot := f[len(f)-1].Name
+						for _, p := range all {
+							if p == f[1].Name+"/k" || p == lastRoot || strings.HasPrefix(p, lastRoot+"/") {
+								continue
+							}
+							st3[p] = 'd'
+						}
+						c08Case(c, c08Replay{Kind: "c08", Depth: t.d, Names: t.n, State: st3, Strict: strict, Form: "abs", Route: "md"})
+					}
 				}
 			}
 		}
